@@ -191,6 +191,9 @@ func suitesFor(prop string) []Suite {
 			if i%6 == 4 {
 				return genStagedCase(r, "C08")
 			}
+			if i%12 == 9 {
+				return genChainCase(r, "C08")
+			}
 			if i%4 == 3 {
 				return genCopyGlobCase(r)
 			}
@@ -213,10 +216,14 @@ func suitesFor(prop string) []Suite {
 			if i%6 == 4 {
 				return genStagedCase(r, "C11")
 			}
+			if i%12 == 7 {
+				return genChainCase(r, "C11")
+			}
 			return genSumCase(r, "C11")
 		}, 600, 8000, postSumCopy)}
 	case "C12":
-		return []Suite{cmdSuite("remote", func(r *Rng, i int, tier string) []Op { return genRemoteCase(r) }, 300, 5000, postRemote)}
+		return []Suite{cmdSuite("remote", func(r *Rng, i int, tier string) []Op { return genRemoteCase(r) }, 300, 5000, postRemote),
+			{Name: "remote-big", Custom: bigRemoteSuite}}
 	case "C18":
 		return []Suite{cmdSuite("view", func(r *Rng, i int, tier string) []Op { return genViewCase(r) }, 600, 10000, postView)}
 	case "C13":
